@@ -5,6 +5,8 @@ import JenVerif.Props.C08
 import JenVerif.Props.C07
 import JenVerif.Props.C17
 import JenVerif.Props.C15
+import JenVerif.Props.C06
+import JenVerif.Props.C04
 /-
   Property statements transferred to the TRANSLATED code.
 
@@ -192,6 +194,39 @@ theorem C15_block_comment_on_code (cfg : Cfg) (f : FileS) (t : Str) (hd : Commen
   simp only [List.nil_append]
   exact (C15.block_comment_contained t hd h rest).1
 
+/-- C06 on the translated renderer: `Qual(p, n)` with `p` the File's own path — rendered by the
+    translated `Group.render` calling the translated `token.isNull` / `token.render` / `register` —
+    writes the bare name and leaves the File (its import table) untouched -/
+theorem C06_local_on_code (cfg : Cfg) (f : FileS) (hg : Good cfg f) (w : Str) (prev : Option Code) (p n : Str)
+    (h : Registry.isLocal f p = true) :
+    (srcRec cfg 3).render f w prev (Code.qual p n) = some (w ++ n, f) := by
+  have hd : depth (Code.qual p n) < 3 := by simp [Code.qual, depth, depthL]
+  have ht : TagsOk (Code.qual p n) := by simp [Code.qual, TagsOk, TagsOkL]
+  rw [srcRec_render cfg _ 3 hd ht f (Or.inr (Or.inl ⟨_, _, rfl⟩)) hg w prev]
+  have hm : misuse f.np (Code.qual p n) = false := by
+    simp [Code.qual, misuse, misuseItems, Code.qualInfo, isDict]
+  simp only [modelRec, hm, Bool.false_eq_true, if_false, C06.local_bare cfg f prev p n h]
+
+/-- C04 on the translated `File.Render`: the import table it leaves behind (from which the block is
+    printed) holds, beyond what was there before, exactly the non-local paths the traversal visits —
+    and every visited non-local path is registered under a real name -/
+theorem C04_block_exact_on_code (w : World) (f : FileS)
+    (hI : RegistryInv.Inv (Props.cfgOf tl ip) f) (hH : RegistryInv.HintsOk f) (items : List Code) (n : Nat)
+    (hn : depth (.group fileInfo items) < n) (ht : TagsOk (.group fileInfo items))
+    (hm : misuse f.np (.group fileInfo items) = false) (p : Str) :
+    let cfg := Props.cfgOf tl ip
+    let f' := (Gen.Src.Render cfg (srcRec cfg n) w items f).2.2
+    (p ∈ f'.imports.map (·.1) →
+      p ∈ f.imports.map (·.1) ∨ (Frame.visitsItems f.np items p = true ∧ Registry.isLocal f p = false)) ∧
+    (Frame.visitsItems f.np items p = true → Registry.isLocal f p = false → Registry.isReg f' p = true) := by
+  intro cfg f'
+  have hc := File_Render_closed tl ip w f hI hH items n hn ht
+  have hs : f' = (renderFileRaw cfg f items).2 := hc.2.2 hm
+  rw [hs]
+  exact C04.block_paths_exact hH (Props.stdOk tl ip) items p
+
+#print axioms C04_block_exact_on_code
+#print axioms C06_local_on_code
 #print axioms C17_lookup_on_code
 #print axioms C15_line_comment_on_code
 #print axioms C15_block_comment_on_code
